@@ -58,7 +58,9 @@ Inductive out :=
 | GArm (t0 ch dur target : Z)                 (* countdown(): slot armed at true time t0 for dur ms *)
 | GFinish (tcb ch target t0 dur u0 u : Z)     (* the slot armed at t0 expired: evaluated at true time tcb, ms reading u *)
 | GEvalStart (due t : Z)                      (* an evaluation of the slot table starts at t; due = due time of the shared timer *)
-| GEvalEnd (t : Z).                           (* ... and ends (after its finish callbacks) *)
+| GEvalEnd (t : Z)                            (* ... and ends (after its finish callbacks) *)
+| GPoll (last a : Z).                         (* uptime_usec read the counter when the unwrapped count since boot was a;
+                                                 the previous reading was taken at count last *)
 
 Record st := {
   now : Z;
@@ -146,7 +148,7 @@ Definition counter (s : st) : Z := u32 (cnt0 s + (now s - tb s)).
 Definition uptime_usec (s : st) : st * Z :=
   let t := counter s in
   let c := if t <? upl s then u32 (upc s + 1) else upc s in
-  (set_upl t (set_upc c s), c * 4294967295 + t).
+  (emit (GPoll (upc s * 4294967296 + upl s) (cnt0 s + (now s - tb s))) (set_upl t (set_upc c s)), c * 4294967295 + t).
 Definition uptime_msec (s : st) : st * Z := let '(s1, u) := uptime_usec s in (s1, u / 1000).
 
 (* ---------- timers ---------- *)
